@@ -25,9 +25,10 @@ func (c04) Rule() string {
 }
 
 // c04.askpair   slot of key ka is migrating from node 0 to node 1 and ka is not on node 0 any more; client 1 pipelines SET ka v1, GET ka.
-// The read loop of node 0's connection follows the ASK: ASKING, then the command.  It is parked right before the command is enqueued
-// on node 1's connection (pause point client.send.checked reached from handleRedirection, second time); client 2 then asks node 1
-// for kb; 300 ms later the parked send goes on.  ASKING counts for the next command only: whatever gets between the two takes it.
+// The read loop of node 0's connection follows the ASK: ASKING, then the command.  If it hands them to node 1's connection in two
+// steps it is parked between the two (pause point upstream.request.checked reached from handleRedirection for the second time — since
+// cf7dbc3 there is only one step, nothing parks); client 2 then asks node 1 for kb; 300 ms later a parked resend goes on.
+// ASKING counts for the next command only: whatever gets between the two takes it.
 //
 //	-> c1=<reply of SET>,<reply of GET> c2=<reply of GET kb> final=<GET ka afterwards>
 func c04AskPair() string {
@@ -80,7 +81,7 @@ func c04AskPair() string {
 	n := 0
 	reached, release := make(chan struct{}), make(chan struct{})
 	redis.VerifSetPause(func(point string, obj interface{}) {
-		if point != "client.send.checked" {
+		if point != "upstream.request.checked" {
 			return
 		}
 		var pcs [32]uintptr
@@ -110,9 +111,8 @@ func c04AskPair() string {
 	}
 	select {
 	case <-reached:
-	case <-time.After(3 * time.Second):
-		close(release)
-		return "not-parked"
+	case <-time.After(400 * time.Millisecond):
+		// the pair went to node 1's connection in one step
 	}
 	if err := c1.Write([]byte("get"), ka); err != nil {
 		close(release)
